@@ -1674,7 +1674,7 @@ func init() {
 
 func TestC11(t *testing.T) {
 	c := hx.NewCollector("C11", "exploration",
-		"(1) acl-evaluator: the real IdentifyAccount / CheckContractMethodPerm over a stub ACL manager, exhaustively over rules x ordered signer lists, compared with a reference evaluator written from the statement (signer = last URI component; counts only through a path that starts at the evaluated account and walks real membership edges; each member once); on the code alone: same verdict for every list with the same set of URIs (permutation, duplication), no acceptance lost by adding a URI (non-negative weights). Non-trivial = signer list with a duplicate, a foreign-account path or a nested path. (2) acl-pipeline: real node, accounts created through $acl.NewAccount, rule changes SetAccountAcl / SetMethodAcl signed by generated signer sets through State.VerifyTx / DoTx, interleaved with blocks and pending rule changes; accepted iff the reference evaluator is satisfied under the owning account's rule as of the confirmed chain. Non-trivial = rule change whose signers satisfy exactly one of {confirmed rule, pending rule}, or with a foreign-account / key-in-the-middle URI",
+		"(1) acl-evaluator: the real IdentifyAccount / CheckContractMethodPerm over a stub ACL manager, exhaustively over rules x ordered signer lists, compared with a reference evaluator written from the statement (signer = last URI component; counts only through a path that starts at the evaluated account and walks real membership edges; each member once); on the code alone: same verdict for every list with the same set of URIs (permutation, duplication), no acceptance lost by adding a URI (non-negative weights). Non-trivial = signer list with a duplicate, a foreign-account path or a nested path. (2) acl-pipeline: real node, accounts created through $acl.NewAccount, rule changes SetAccountAcl / SetMethodAcl (and transfers out of an account's own funds) signed by generated signer sets through State.VerifyTx / DoTx, interleaved with own blocks, walks back to an earlier block and forward again, and pending rule changes; accepted iff the reference evaluator is satisfied under the owning account's rule as of the confirmed chain (rules taken from the reference model's state at the node's confirmed block). Non-trivial = guarded transaction whose signers satisfy exactly one of {confirmed rule, pending rule}, or with a foreign-account / key-in-the-middle URI; distinct = hash of the trace",
 		"every signer URI ends in an access key whose signature was verified (verifySignatures checks exactly the last component)",
 		"weights are multiples of 0.1 whose float64 sums compare like the exact numbers in every summation order (rules where rounding decides are skipped and counted)",
 		"a listed key set is non-empty (the code documents that an empty set never validates)",
@@ -1702,7 +1702,7 @@ func TestC11(t *testing.T) {
 		t.Logf("acl-pipeline not run: a violation was already reported")
 		return
 	}
-	c.Check(t, "acl-pipeline", hx.N(1000, 15000), func(cs *hx.Case) {
+	c.Check(t, "acl-pipeline", hx.N(800, 14000), func(cs *hx.Case) {
 		c11RunPipelineCase(cs, fs)
 	})
 }
